@@ -121,6 +121,23 @@ func (in *Interp) lookupIntrinsic(fn *ssa.Function) intrinsic {
 	if h, ok := intrinsics[fn.String()]; ok {
 		return h
 	}
+	if strings.HasPrefix(fn.String(), "(*sync/atomic.Pointer[") {
+		// instantiations of the generic atomic.Pointer[T]: the pointer lives in the struct's last field
+		mname := fn.Name()
+		if i := strings.IndexByte(mname, '['); i >= 0 {
+			mname = mname[:i]
+		}
+		switch mname {
+		case "Load":
+			return iAtomicPointerLoad
+		case "Store":
+			return iAtomicPointerStore
+		case "Swap":
+			return iAtomicPointerSwap
+		case "CompareAndSwap":
+			return iAtomicPointerCAS
+		}
+	}
 	if h := templateIntrinsic(fn); h != nil {
 		return h
 	}
@@ -1761,6 +1778,14 @@ func (in *Interp) logAccess(kind string, p PtrV) {
 	if p.obj == in.rwCond && in.rwCond != nil {
 		in.logRunewidthGlobal(kind)
 	}
+}
+
+// logObjRange logs a slice-level access to elements [lo,hi) of a backing array.
+func (in *Interp) logObjRange(kind string, o *Obj, lo, hi int) {
+	if !in.traceOn || o == nil || lo >= hi {
+		return
+	}
+	in.events = append(in.events, Event{Thread: in.curThread, Kind: kind, Obj: o.id, Path: fmt.Sprintf("*%d:%d", lo, hi), PCLen: len(in.pc)})
 }
 
 func (in *Interp) logObj(kind string, o *Obj) {
